@@ -1,21 +1,50 @@
 """C16 - descriptors carry the device configuration current when they were made.
 
 Carriers: bluesky/bundlers.py: RunBundler._cache_read_config, _cache_describe_config, _prepare_stream, configure,
-monitor (+ its emit_event closure), save.
+monitor (+ its emit_event closure), save, declare_stream, collect (+ _describe_collect, _collect_events, _collect_event_pages,
+_pack_external_assets); bluesky/run_engine.py: RunEngine._configure.
 Clauses: a descriptor records, for every object of its stream, the configuration values / timestamps / keys cached
 *at the time it is made*; configure(obj) re-reads obj's configuration and, for every stream containing obj, emits a new
 descriptor with the new configuration and unchanged data keys, and every later event of that stream - bundled (save)
 or monitored (the subscription callback) - references the new descriptor; streams without obj are untouched.
+
+The statement quantifies over plans interleaving configure with the events of *every* stream containing the object.  The
+`program[...]` tasks therefore run the real message handlers (RunEngine._configure -> RunBundler.configure, create / read /
+save / drop, declare_stream, monitor + its callback, kickoff / collect with _collect_events / _collect_event_pages /
+_describe_collect) over generated programs and judge every emitted document with the monitor of replay/c16_spec.py, which
+is the statement written once for both the symbolic and the native side:
+  * the first configure arrives at every kind of point in the life of the object: never seen, read in a dropped bundle
+    (cached, no descriptor yet), saved, pre-declared, in two streams, monitored, saved + monitored; before the first collect /
+    after a collect of a flyer that is pre-declared (collected with and without name=) or old-style (nested describe_collect,
+    two streams), yielding events, event pages, or - a detector writing stream assets - stream_datums;
+  * afterwards every stream emits again (bundles, monitor ticks, collects), a second configure (the same object, another
+    object of the stream, both, twice in a row) follows and every stream emits once more; configuration values are symbolic
+    and change at every configure (obj.configure is called by the real RunEngine._configure);
+  * after every action all descriptors emitted so far must still hold the configuration they were emitted with.
 """
 from .lib import *
 from .re_lib import *
 from .C15 import device, reading
+from replay import c16_spec as S
 
 PROP = "C16"
 Q = f"{MB}:RunBundler"
 TRUSTED = EM_ASSUMPTIONS + ["devices: read_configuration() / describe_configuration() return arbitrary mappings (symbolic values); "
-                            "subscribe() only registers the callback (the harness calls it to model a signal update)"]
-NOT_DECIDED = "collect streams (flyers) after configure; what the RunEngine's _configure does with the (old, new) pair"
+                            "subscribe() only registers the callback (the harness calls it to model a signal update)",
+                            "a device's configuration changes only inside its configure() (called by RunEngine._configure, which is executed); "
+                            "configure() returns the (old, new) pair",
+                            "flyers: collect() / collect_pages() yield a concrete number of partial events / pages (2 per stream / 1 per stream) "
+                            "with symbolic cells; iterate_maybe_async yields exactly the items of its argument; maybe_collect_asset_docs(msg, obj, index) "
+                            "yields the documents of obj.collect_asset_docs(index) for a detector writing stream assets (one stream_resource once, one "
+                            "stream_datum of two frames per collect) and nothing for other objects; itertools.combinations is the standard one; "
+                            "async for (pyvc) runs over the finite sequence its stubbed producer returns",
+                            "program shapes are enumerated (histories x second configure, see the module docstring); one configuration key per object"]
+NOT_DECIDED = ("plans outside the enumerated program shapes (longer interleavings are covered only in so far as every handler re-reads "
+               "self._descriptors[name] at emission time, which is what the programs exercise after one and after two configures); "
+               "several stream-asset detectors collected together; a monitor callback called with readings; what the caller does with the "
+               "(old, new) pair returned by RunEngine._configure; "
+               "an object that belongs to streams of several simultaneously open runs: RunEngine._configure tells only the run of the message, "
+               "so the descriptors of the other run keep the old configuration (observed natively; multi-run plans are outside the statement's quantifier)")
 
 
 def cfg_device(I, w, b, name, keys, conf_holder):
@@ -51,11 +80,17 @@ def setup(I):
 def configure(I):
     w = I.w
     env, b = setup(I)
-    conf = {"gain": w.real("gain0"), "ts": w.real("gain0_ts")}
+    conf = {"gain": w.real("det_gain0"), "ts": w.real("det_ts0")}
     det = cfg_device(I, w, b, "det", ["x"], conf)
-    other_conf = {"gain": w.real("other_gain"), "ts": w.real("other_ts")}
+    other_conf = {"gain": w.real("other_gain0"), "ts": w.real("other_ts0")}
     other = cfg_device(I, w, b, "other", ["y"], other_conf)
-    rp = {"replay": "bundler.configure"}
+    # the same scenario as a program for the native replay (replay/c16_spec.py), judged there by the clause named in `clause`
+    prog = [["bundle", "primary", ["det"]], ["bundle", "aux", ["other"]], ["monitor", "det", "mon"], ["configure", "det"],
+            ["bundle", "primary", ["det"]], ["tick", "det"]]
+
+    def rp_(clause, upto):
+        return {"replay": "bundler.configure_program", "program": prog[:upto], "flyer": None, "clause": clause}
+    rp = rp_(S.DESC, 3)
     # stream 'primary' (bundled, contains det), stream 'mon' (monitor of det), stream 'aux' (contains only `other`)
     for name, dv in (("primary", det), ("aux", other)):
         call_async(I, I.getattr(b, "create"), MsgVal("create", None, (), {"name": name}, None))
@@ -75,7 +110,8 @@ def configure(I):
                 Eq(descs0["aux"]["configuration"]["other"]["data"]["gain"], other_conf["gain"]),
                 set(descs0["primary"]["configuration"]["det"]["data_keys"]) == {"gain"}), rp)
     # the device is re-configured
-    conf["gain"], conf["ts"] = w.real("gain1"), w.real("gain1_ts")
+    conf["gain"], conf["ts"] = w.real("det_gain1"), w.real("det_ts1")
+    rp = rp_(S.CONF, 4)
     env.emitted.clear()
     r = call_async(I, I.getattr(b, "configure"), MsgVal("configure", det, (), {}, None))
     new = {d["name"]: d for n, d in env.emitted if n == "descriptor"}
@@ -86,9 +122,15 @@ def configure(I):
                       + [new[s]["uid"] != descs0[s]["uid"] for s in new] if ok else [False])), rp)
     w.check(f"{Q}.configure#ensures[streams without the object are untouched]",
             "aux" not in new and b._descriptors["aux"].attrs["descriptor_doc"] is descs0["aux"], rp)
+    n_b, n_m = (f"{Q}.configure#ensures[later bundled events of the stream reference the new descriptor]",
+                f"{Q}.configure#ensures[later monitor events of the stream reference the new descriptor]")
     if not ok:
+        # some stream containing the object has no new descriptor: its later events cannot reference one
+        w.fail(n_b, rp_(S.CONF, 4))
+        w.fail(n_m, rp_(S.CONF, 4))
         return
     # a later bundled event
+    rp = rp_(S.EV_B, 5)
     env.emitted.clear()
     call_async(I, I.getattr(b, "create"), MsgVal("create", None, (), {"name": "primary"}, None))
     call_async(I, I.getattr(b, "read"), MsgVal("read", det, (), {}, None), det.spec["methods"]["read"](I, det, (), {}))
@@ -97,6 +139,7 @@ def configure(I):
     w.check(f"{Q}.configure#ensures[later bundled events of the stream reference the new descriptor]",
             len(evs) == 1 and evs[0]["descriptor"] == new["primary"]["uid"] and [n for n, d in env.emitted] == ["event"], rp)
     # a later monitor update: the subscription callback fires
+    rp = rp_(S.EV_M, 6)
     env.emitted.clear()
     cbs = conf.get("callbacks", [])
     if len(cbs) != 1:
@@ -106,3 +149,224 @@ def configure(I):
     evs = [d for n, d in env.emitted if n == "event"]
     w.check(f"{Q}.configure#ensures[later monitor events of the stream reference the new descriptor]",
             len(evs) == 1 and evs[0]["descriptor"] == new["mon"]["uid"], rp)
+
+
+# ---------------------------------------------------------------------------------------------------------------------
+# generated programs judged by the shared monitor (replay/c16_spec.py)
+
+DK = {"dtype": "number", "shape": [], "source": "sim"}
+FLY_KEYS = {"fly": ["fx", "fz"], "fly2": ["fy"]}
+
+
+class Prog:
+    """runs a program (see replay/c16_spec.py) on the real handlers; every document goes through the monitor"""
+
+    def __init__(self, I, flyer=None, judge=True):
+        self.I, self.w, self.judge = I, I.w, judge
+        w = I.w
+        self.env, self.b = setup(I)
+        w.stubs[(MB, "iterate_maybe_async")] = native(lambda I_, a, k: list(a[0]))
+        w.stubs["itertools.combinations"] = lambda I_, a, k: [tuple(c) for c in __import__("itertools").combinations(list(a[0]), a[1])]
+        w.stubs[(MB, "StreamRange")] = native(lambda I_, a, k: dict(k))
+        w.stubs[(MB, "EventModelValueError")] = self.env.value_error
+
+        def asset_docs(I_, a, k):
+            # maybe_collect_asset_docs(msg, obj, index=...): the documents of obj.collect_asset_docs(index) when obj writes assets, else none
+            m = a[1].spec.get("methods", {}).get("collect_asset_docs")
+            return list(m(I_, a[1], (k.get("index"),), {})) if m else []
+        w.stubs[(MB, "maybe_collect_asset_docs")] = native(asset_docs)
+        self.re =make_re(I, self.env, _run_bundlers={None: self.b})
+        self.program = []
+        self.flyer = flyer         # None | {"kind": "events"|"pages"|"assets", "describe": "flat"|"nested"}
+        self.spec = S.Spec(eq=Eq, conj=lambda cs: And(*cs), report=self.report)
+        self.holders, self.devs = {}, {}
+        for name, keys in (("det", ["x"]), ("other", ["y"])):
+            self.add_device(name, keys)
+        if flyer:
+            self.add_device("fly", [], flyer)
+
+    def report(self, clause, cond, detail):
+        if not self.judge:
+            return      # (the must-fail twin states its own, deliberately wrong, clause)
+        self.w.check(clause, cond, {"replay": "bundler.configure_program", "program": [list(a) for a in self.program], "flyer": self.flyer})
+
+    def add_device(self, name, keys, flyer=None):
+        w, spec = self.w, self.spec
+        h = self.holders[name] = {"n": 0, "gain": w.real(f"{name}_gain0"), "ts": w.real(f"{name}_ts0"), "callbacks": []}
+        spec.device_reports(name, {"gain": (h["gain"], h["ts"])})
+
+        def read_configuration(I_, o, a, k):
+            return {"gain": {"value": h["gain"], "timestamp": h["ts"]}}
+
+        def configure(I_, o, a, k):
+            old = read_configuration(I_, o, a, k)
+            h["n"] += 1
+            h["gain"], h["ts"] = w.real(f"{name}_gain{h['n']}"), w.real(f"{name}_ts{h['n']}")
+            spec.device_reports(name, {"gain": (h["gain"], h["ts"])})
+            return (old, read_configuration(I_, o, a, k))
+        methods = {"read_configuration": read_configuration, "configure": configure,
+                   "describe_configuration": lambda I_, o, a, k: {"gain": dict(DK)},
+                   "describe": lambda I_, o, a, k: {kk: dict(DK) for kk in keys},
+                   "subscribe": lambda I_, o, a, k: h["callbacks"].append(a[0]),
+                   "clear_sub": lambda I_, o, a, k: h.__setitem__("callbacks", [c for c in h["callbacks"] if c is not a[0]]),
+                   "read": lambda I_, o, a, k: {kk: {"value": I_.w.real(f"{kk}_v", fresh=True), "timestamp": I_.w.real(f"{kk}_t", fresh=True)} for kk in keys}}
+        isa = {"Configurable": True, "Collectable": False, "Subscribable": True, "Readable": True}
+        if flyer:
+            streams = FLY_KEYS if flyer["describe"] == "nested" else {"fly": FLY_KEYS["fly"]}
+            isa = {"Configurable": True, "Collectable": True, "Flyable": True, "Readable": False, "Subscribable": False, "WritesStreamAssets": False,
+                   "EventCollectable": flyer["kind"] == "events", "EventPageCollectable": flyer["kind"] == "pages"}
+            cell = lambda I_, kk: I_.w.real(f"{kk}_c", fresh=True)
+            methods["describe_collect"] = (lambda I_, o, a, k: {s: {kk: dict(DK) for kk in ks} for s, ks in streams.items()}) if flyer["describe"] == "nested" \
+                else (lambda I_, o, a, k: {kk: dict(DK) for kk in streams["fly"]})
+            # two partial events per stream, interleaved / one page of two rows per stream
+            methods["collect"] = lambda I_, o, a, k: [{"data": {kk: cell(I_, kk) for kk in ks}, "timestamps": {kk: cell(I_, kk) for kk in ks}, "time": cell(I_, "t")}
+                                                      for _ in range(2) for s, ks in streams.items()]
+            methods["collect_pages"] = lambda I_, o, a, k: [{"data": {kk: [cell(I_, kk), cell(I_, kk)] for kk in ks}, "timestamps": {kk: [cell(I_, kk), cell(I_, kk)] for kk in ks},
+                                                             "time": [cell(I_, "t"), cell(I_, "t")]} for s, ks in streams.items()]
+            if flyer["kind"] == "assets":
+                # a detector writing stream assets (one external data key): a stream_resource once, then one stream_datum of two frames per collect
+                st = {"first": True, "idx": 0}
+                ext = dict(DK, dtype="array", shape=[1], external="STREAM:")
+                isa.update({"WritesStreamAssets": True, "Flyable": True})
+                methods["describe_collect"] = lambda I_, o, a, k: {"fx": dict(ext)}
+                methods["get_index"] = lambda I_, o, a, k: st["idx"] + 2
+
+                def collect_asset_docs(I_, o, a, k):
+                    out = [("stream_resource", {"uid": "sr-fx", "data_key": "fx", "mimetype": "x", "uri": "file://x", "parameters": {}})] if st["first"] else []
+                    out.append(("stream_datum", {"uid": f"sr-fx/{st['idx']}", "stream_resource": "sr-fx", "descriptor": "",
+                                                 "indices": {"start": st["idx"], "stop": st["idx"] + 2}, "seq_nums": {"start": 0, "stop": 0}}))
+                    st["first"], st["idx"] = False, st["idx"] + 2
+                    return out
+                methods["collect_asset_docs"] = collect_asset_docs
+                del methods["collect"], methods["collect_pages"]
+        self.devs[name] = Opaque(name, {"token": "dev", "attrs": {"name": name, "hints": {"fields": list(keys)}}, "truth": True, "hasattr": {"hints": True},
+                                        "isinstance": isa, "isinstance_default": False, "methods": methods})
+
+    # ---- one action
+    def _msg(self, command, obj=None, args=(), **kwargs):
+        r = call_async(self.I, self.I.getattr(self.b, command), MsgVal(command, obj, tuple(args), kwargs, None))
+        return r
+
+    def _run(self, a):
+        I, b, D = self.I, self.b, self.devs
+        if a[0] in ("bundle", "dropped"):
+            steps = [lambda: self._msg("create", name=a[1])]
+            for o in a[2]:
+                steps.append(lambda o=o: call_async(I, I.getattr(b, "read"), MsgVal("read", D[o], (), {}, None), D[o].spec["methods"]["read"](I, D[o], (), {})))
+            steps.append(lambda: self._msg("save" if a[0] == "bundle" else "drop"))
+        elif a[0] == "declare":
+            steps = [lambda: self._msg("declare_stream", None, [D[o] for o in a[2]], name=a[1])]
+        elif a[0] == "declare_fly":
+            steps = [lambda: self._msg("declare_stream", None, [D[a[2]]], name=a[1], collect=True)]
+        elif a[0] == "monitor":
+            steps = [lambda: self._msg("monitor", D[a[1]], name=a[2])]
+        elif a[0] == "tick":
+            steps = [lambda cb=cb: catch(I, cb) for cb in list(self.holders[a[1]]["callbacks"])]
+        elif a[0] == "collect":
+            steps = [lambda: self._msg("kickoff", D[a[1]]), lambda: self._msg("collect", D[a[1]], **({"name": a[2]} if a[2] else {}))]
+        elif a[0] == "configure":
+            n = self.holders[a[1]]["n"] + 1
+            steps = [lambda: call_async(I, I.getattr(self.re, "_configure"), MsgVal("configure", D[a[1]], (n,), {}, None))]
+        else:
+            raise EngineError(f"unknown action {a}")
+        for st in steps:
+            r = st()
+            if r[0] != "ok":
+                exc = r[1]
+                return f"{getattr(getattr(exc, 'cls', None), 'name', type(exc).__name__)}{getattr(exc, 'attrs', {}).get('args', '')!r}"[:200]
+        return None
+
+    def do(self, *action):
+        a = list(action)
+        self.program.append(a)
+        n0 = len(self.env.emitted)
+        self.spec.begin(a)
+        raised = self._run(a)
+        for name, doc in self.env.emitted[n0:]:
+            self.spec.doc(name, doc)
+        self.spec.end(raised)
+
+    def run(self, actions):
+        for a in actions:
+            self.do(*a)
+
+
+PRIMARY, AUX, SIDE = ["bundle", "primary", ["det", "other"]], ["bundle", "aux", ["det"]], ["bundle", "side", ["other"]]
+HISTORIES = {
+    "never seen": [],
+    "read in a dropped bundle": [["dropped", "primary", ["det", "other"]]],
+    "saved": [PRIMARY],
+    "pre-declared, no event yet": [["declare", "primary", ["det", "other"]]],
+    "pre-declared and saved": [["declare", "primary", ["det", "other"]], PRIMARY],
+    "saved on two streams": [PRIMARY, AUX],
+    "dropped on one stream, saved on another": [["dropped", "primary", ["det", "other"]], AUX],
+    "monitored": [["monitor", "det", "mon"], ["tick", "det"]],
+    "saved and monitored": [PRIMARY, ["monitor", "det", "mon"], ["tick", "det"]],
+}
+SECOND = {"the same object": [["configure", "det"]], "another object of the stream": [["configure", "other"]],
+          "twice in a row": [["configure", "det"], ["configure", "det"]], "both objects": [["configure", "other"], ["configure", "det"]]}
+BUNDLE_CLAUSES = [S.DESC, S.KEYS, S.CONF, S.EV_B, S.EV_M, S.QUIET, S.FROZEN]
+
+
+def _bundles(second):
+    @task(f"program[bundles and monitors; second configure: {second}]", PROP,
+          functions=[f"{RE}._configure", f"{Q}.configure", f"{Q}._cache_read_config", f"{Q}._cache_describe_config", f"{Q}._cache_describe", f"{Q}._ensure_cached",
+                     f"{Q}._prepare_stream", f"{Q}.declare_stream", f"{Q}.create", f"{Q}.read", f"{Q}.save", f"{Q}.drop", f"{Q}.monitor", f"{Q}.monitor.emit_event"],
+          expect=BUNDLE_CLAUSES, bounded=None)
+    def t(I):
+        w = I.w
+        h = w.choose(list(HISTORIES), "history of the object before its first configure")
+        p = Prog(I)
+        p.run([SIDE] + HISTORIES[h])
+        monitored = any(a[0] == "monitor" for a in HISTORIES[h])
+        p.do("configure", "det")
+        # every stream emits again; the monitor of the other histories starts now (its descriptor is made after the configure)
+        p.run([PRIMARY, AUX, SIDE] + ([] if monitored else [["monitor", "det", "mon"]]) + [["tick", "det"]])
+        p.run(SECOND[second])
+        p.run([["tick", "det"], PRIMARY, AUX, SIDE, ["tick", "det"], PRIMARY])
+    return t
+
+
+for _s in SECOND:
+    _bundles(_s)
+
+FLY_HIST = {"before the first collect": [], "after a collect": ["collect"]}
+COLLECT_CLAUSES = [S.DESC, S.KEYS, S.CONF, S.EV_C, S.EV_B, S.FROZEN]
+
+
+def _collects(kind, how):
+    nested = how == "old-style nested describe_collect"
+    streams = ["fly", "fly2"] if nested else ["fly"]
+    collect = ["collect", "fly", "fly" if how == "pre-declared, collect with name=" else None, streams]
+
+    @task(f"program[collect; {kind}; {how}]", PROP,
+          functions=[f"{RE}._configure", f"{Q}.configure", f"{Q}._cache_read_config", f"{Q}._ensure_cached", f"{Q}._prepare_stream", f"{Q}.declare_stream",
+                     f"{Q}.kickoff", f"{Q}.collect", f"{Q}._pack_external_assets",
+                     f"{Q}._format_datakeys_with_stream_name", f"{Q}.save"] + ([f"{Q}._describe_collect", f"{Q}._cache_describe_collect"] if nested else [])
+          + {"events": [f"{Q}._collect_events"], "pages": [f"{Q}._collect_event_pages"], "assets": [f"{Q}._pack_seq_nums_into_stream_datum", f"{Q}.get_external_data_keys"]}[kind],
+          expect=COLLECT_CLAUSES + ([] if nested else [S.QUIET]))
+    def t(I):
+        w = I.w
+        h = w.choose(list(FLY_HIST), "history of the flyer before its first configure")
+        p = Prog(I, flyer={"kind": kind, "describe": "nested" if nested else "flat"})
+        step = ["bundle", "primary", ["det"]]
+        p.run([step] + ([] if nested else [["declare_fly", "fly", "fly"]]) + [collect for _ in FLY_HIST[h]])
+        p.run([["configure", "fly"], collect, step, collect])
+        p.run([["configure", "fly"], ["configure", "det"], collect, step, ["configure", "fly"], collect])
+    return t
+
+
+for _k in ("events", "pages", "assets"):
+    for _h in ("pre-declared, collect with name=", "pre-declared, collect without name=", "old-style nested describe_collect"):
+        if not (_k == "assets" and _h.startswith("old-style")):      # (stream assets need a pre-declared stream)
+            _collects(_k, _h)
+
+
+@task("program.twin", PROP, twin="twin:events after a configure keep referencing the stream's first descriptor")
+def twin(I):
+    p = Prog(I, judge=False)
+    p.run([PRIMARY, ["configure", "det"]])
+    first = [d for n, d in p.env.emitted if n == "descriptor" and d["name"] == "primary"][0]
+    p.do(*PRIMARY)
+    ev = [d for n, d in p.env.emitted if n == "event"][-1]
+    I.w.check("twin:events after a configure keep referencing the stream's first descriptor", ev["descriptor"] == first["uid"])
